@@ -45,6 +45,7 @@ func checkC07(w *World, r *Report) {
 	r.Rule("R07.10", "a write succeeds only after its packets were acknowledged", 1)
 	r.Rule("R07.12", "the byte count of a write covers every chunk it queued", 1)
 	r.Rule("R07.17", "a flag raised around a region is lowered on every path out of it", 1)
+	r.Rule("R07.20", "a chunk the in-queue refuses leaves the queue as it was, and a refusal always depends on the chunk offered (no sticky failure)", 1)
 	r.Rule("R07.19", "the retransmitting poller closes the connection only on an identity-tested verdict, never on accumulated transient failures", 2)
 	r.Rule("R07.18", "every Unlock releases a mutex that is held on every path reaching it (unlock of an unlocked mutex is a fatal error)", 10)
 	r.Rule("R07.16", "every lock-protected field of the tunnel's queues and connections is written under one and the same mutex everywhere", 3)
@@ -67,6 +68,7 @@ func checkC07(w *World, r *Report) {
 	ruleLockOrder(w, r, "R07.15", func(p string) bool { return strings.HasPrefix(p, modPath+"/internal/streams/dns") })
 	ruleNoReentrantLock(w, r, "R07.14", func(p string) bool { return strings.HasPrefix(p, modPath+"/internal/streams/dns") })
 	c07PollerClosesOnVerdictOnly(w, r)
+	c07RefusedChunkLeavesQueueAlone(w, r)
 	ruleUnlockHeld(w, r, "R07.18", func(p string) bool { return strings.HasPrefix(p, modPath+"/internal/streams/dns") })
 }
 
@@ -314,7 +316,9 @@ func c07AckMemory(w *World, r *Report) {
 }
 
 // c07LockPairing: A5a.
-func c07LockPairing(w *World, r *Report, fns []*ssa.Function) {
+func c07LockPairing(w *World, r *Report, fns []*ssa.Function) { ruleLockPairing(w, r, "R07.3", fns) }
+
+func ruleLockPairing(w *World, r *Report, rule string, fns []*ssa.Function) {
 	for _, fn := range fns {
 		ord := 0
 		for _, c := range callsIn(fn) {
@@ -370,9 +374,9 @@ func c07LockPairing(w *World, r *Report, fns []*ssa.Function) {
 				return false
 			}
 			if t := canReach(fn, call, isUnlock, isExit); t != nil {
-				r.Violate("R07.3", key, w.Pos(call.Pos()), fmt.Sprintf("the function can return at %s with %s still locked: every later caller blocks forever", w.Pos(t.Pos()), name))
+				r.Violate(rule, key, w.Pos(call.Pos()), fmt.Sprintf("the function can return at %s with %s still locked: every later caller blocks forever", w.Pos(t.Pos()), name))
 			} else {
-				r.Hold("R07.3", key, w.Pos(call.Pos()), "an Unlock (direct or deferred) lies on every path to every return")
+				r.Hold(rule, key, w.Pos(call.Pos()), "an Unlock (direct or deferred) lies on every path to every return")
 			}
 		}
 	}
